@@ -12,7 +12,7 @@ Line protocol of the checked-index models of the cmap directory group (property 
   `ok:f0:0:255` | `ok:m16:<low>:<high>` | `ok:ext<format>` | `panic`
 * `tmcmapdir.f0 bytes=<hex>` → `ok:<hex of the 256 bytes>` | `err` | `panic`
 * `tmcmapdir.f6 bytes=<hex> mac=<0|1>` → `ok:<code:gid,…>` | `err` | `panic`
-* `tmcmapdir.lookup0 data=<hex> r=<int>` → glyph | `panic`; `tmcmapdir.lookup16 map=<c:g,…> r=<int>`
+* `tmcmapdir.lookup0 data=<hex> r=<int>` → glyph (0 for negative runes and runes > 255); `tmcmapdir.lookup16 map=<c:g,…> r=<int>`
 * `tmcmapdir.formats` → the keys of `decoders`, ascending
 -/
 namespace SfntV.Drive.TotalCmapDir
